@@ -5,6 +5,22 @@ HERE = os.path.dirname(os.path.dirname(os.path.abspath(__file__)))
 ALL = ["C%02d" % i for i in range(1, 21)]
 
 CHECKS = {
+ "C12": dict(category="exploration", design_ref="DESIGN.md §4 C12", engine="corpus",
+   technique="runtime monitoring: one compiled use-interpreter template renders use histories given as data with the real generator and runtime; an offline history checker over the HTML5 token stream of each context's output (<=1 definition per item and context, definition before first use, every use carries its call / class name / once content, registered classes never inlined and served by the endpoint, per-context output equal to the isolated run)",
+   text="exploration: all histories of length <=2 (thorough <=3) over 43 use atoms (script components, on* attributes, class expressions in every container form of templ.Classes / RenderCSSItems, once handles with block and WithComponent), each also nested in once / child block / child component, plus 60k (1M) seeded random histories of up to 30 uses over 3 scripts, 5 css classes and 3 once handles; 1-3 contexts rendered alternately, and CSSMiddleware + Handler (buffered / streamed) with a pre-registered subset and the stylesheet endpoint.",
+   note="ids and function names are opaque labels announced by the driver; no fault injection (record-before-emit on a failing writer is C10's ground) and no goroutines (C14); one class is never both enabled and disabled in one expression. Two genuine defects fixed (container forms handled for names but not rules, and vice versa)."),
+ "C13": dict(category="exploration", design_ref="DESIGN.md §4 C13", engine="corpus",
+   technique="runtime monitoring: one compiled call-tree interpreter renders call trees given as data; a reference call-tree semantics in the harness (a callee sees exactly its call-site block, rendered where and as often as its slot occurs) predicts the marker structure; exact comparison on the HTML5 token stream",
+   text="exploration: every forest with <=3 nodes over 26 call kinds (generated callees: slot / ignore / twice / pass-on / inner / after and the legacy call syntax; OnceHandle.Once, Once(WithComponent), Flush, Join, function components reading / ignoring children, WithChildren from code; each with and without a block), <=4 nodes over 18 kinds (thorough), plus 100k (4M) seeded random trees of up to 34 nodes biased to an unconsumed block followed by a slot-bearing sibling or descendant.",
+   note="Hand-written function components follow the documented GetChildren + ClearChildren protocol; nesting beyond 3 block levels goes through a generated dispatcher; a runaway render is cut by an output limit of 8x the expected size and counted as a violation. One genuine defect fixed (children stored in the shared context value leaked through Once / Flush / Join / function components)."),
+ "C18": dict(category="exploration", design_ref="DESIGN.md §4 C18", engine="in-proc",
+   technique="runtime monitoring: independent base-protocol frame parser as wire tap and malformed-input oracle, chunk-controlled readers, token/id matching of every Call return, response-lost watchdog, pending-map and goroutine-leak observation; concurrent sessions run in race-instrumented child processes (GORACE log parsed, races attributed to templ code)",
+   text="exploration: seeded message sequences (calls, notifications, results, errors; numeric and string ids; multi-byte payloads up to 1 MB) written with NewStream().Write, checked on the wire (Content-Length == body bytes) and read back under 11 chunking families; every truncation of a 3-frame stream, ~50 header malformations and seeded mutations read in a child (error or the correct message, never a panic, spin or hang); 360 sessions of two Conns over a re-chunking, yielding duplex with N in {2,8,32} callers, notifiers, a peer answering out of order / late / never / with errors and seeded cancellations: each call returns its own reply or its own (possibly wrapped) cancellation.",
+   note="Must-accept means canonical base-protocol frames only; a JSON value followed by extra bytes inside the declared length is counted, not judged; no Content-Length between 4 MB and 2^31-1 is generated (the implementation allocates the declared length). No hook in /repo: windows are widened by yields inside the duplex and the pending map is read by reflection."),
+ "C19": dict(category="exploration", design_ref="DESIGN.md §4 C19", engine="in-proc",
+   technique="runtime monitoring: schedule scripts forced through the verif hook sites (registered / deliver / unregistered) against the real sse.Handler in race-instrumented child processes; crash monitor (exit status + stderr); porcupine linearizability check of Sub/Unsub/Broadcast histories; progress watchdogs on harness-created stalls; goroutine baseline; race detector",
+   text="exploration: 38 forced schedules (delivery parked, client cancelled, handler unregistered, delivery released; cancel during write; cancel before registration completes; back-to-back broadcasts with a cancel between them; write error; stalled client) plus 2000 (quick) / 200000 (thorough) seeded compositions of 5 episode kinds with <=12 clients and <=10 broadcasts. Model: receivers R are a subset of the connected clients and contain every stable connected client; per-client ordering and duplicates are not required.",
+   note="Trusted: the client-boundary timestamps (first ping / ServeHTTP returned), quiescence = delivery goroutines finished + barrier event, porcupine. 10 s watchdogs on harness-created stalls count as violations (the blocked state is created by the harness, not by load). One genuine defect fixed (send on closed channel killed the watch process)."),
  "C01": dict(category="exploration", design_ref="DESIGN.md §4 C01", engine="corpus",
    technique="runtime monitoring: 68 dynamic HTML sinks compiled through the real templ generator and Go compiler, rendered with hostile strings; rendered bytes re-read with the x/net/html HTML5 tokenizer and compared with the same component rendered with a benign sentinel (differential skeleton oracle); plus a strict five-entity decoder over templ.EscapeString in-process",
    text="exploration: held on every (sink, string) pair generated: every byte, U+0000-U+07FF plus boundary sequences, all strings <=3 (quick) / <=4 (thorough) over a 21-symbol metacharacter alphabet, ~120 attack vectors with single-edit mutations, seeded random strings, and values longer than the 4 KB output buffer; 25k strings x 68 sinks = 1.7M compiled renders per quick run plus 3M escaper calls.",
